@@ -876,6 +876,96 @@ static inline void bg_reverse_copy_u8(const unsigned char *first, const unsigned
   if (7 < n) d[7] = first[n - 1 - 7];
 }
 
+/* --------------------------------------------- path searches: vector<VertexIndex>, vector<bool>, queue */
+static inline void bg_vec_u__ctor_2(bg_vec_u *v, bg_size n, const VertexIndex *x) { v->n = n; v->vP = v->vQ = *x; }
+static inline VertexIndex *bg_vec_u__index(bg_vec_u *v, bg_size i) {
+  BG_PRE(i < v->n, "vector<VertexIndex>::operator[] index out of range");
+  if (i == G_P) return &v->vP;
+  if (i == G_Q) return &v->vQ;
+  bg_scratch_u = nondet_vertex();
+  return &bg_scratch_u;
+}
+static inline const VertexIndex *bg_vec_u__index_c(const bg_vec_u *v, bg_size i) {
+  BG_PRE(i < v->n, "vector<VertexIndex>::operator[] index out of range");
+  if (i == G_P) return &v->vP;
+  if (i == G_Q) return &v->vQ;
+  bg_scratch_u = nondet_vertex();
+  return &bg_scratch_u;
+}
+static inline void bg_vec_b__ctor_2(bg_vec_b *v, bg_size n, const bg_bool *x) {
+  v->n = n; v->vP = v->vQ = *x;
+  __CPROVER_assert(!*x, "ABSTRACTION vector<bool> is created all-false");
+  v->nTrue = 0; v->restTrue = 0;
+}
+static inline bg_bitref bg_vec_b__index(bg_vec_b *v, bg_size i) {
+  BG_PRE(i < v->n, "vector<bool>::operator[] index out of range");
+  bg_bitref r; r.v = v; r.i = i;
+  return r;
+}
+/* reading an unobserved bit: unknown, but consistent with the count of true bits */
+static inline bg_bool bg_bitref__tobool(const bg_bitref *r) {
+  if (r->i == G_P) return r->v->vP;
+  if (r->i == G_Q) return r->v->vQ;
+  bg_bool b = nondet_bg_bool();
+  BG_ASSUME(!b || r->v->restTrue > 0);
+  /* fewer true bits than other positions means some of them are false */
+  return b;
+}
+/* writing: the library only ever sets a bit it has just read as false, or re-sets a true one; the ghost
+   count follows the observed cells exactly and the others through the value read before */
+static inline void bg_bitref__assign(bg_bitref *r, bg_bool x) {
+  bg_vec_b *v = r->v;
+  if (r->i == G_P) { if (x && !v->vP) v->nTrue++; if (!x && v->vP) v->nTrue--; v->vP = x; }
+  else if (r->i == G_Q) { if (x && !v->vQ) v->nTrue++; if (!x && v->vQ) v->nTrue--; v->vQ = x; }
+  else {
+    /* an unobserved bit: was it set before?  unknown -> both outcomes */
+    bg_bool was = nondet_bg_bool();
+    BG_ASSUME(!was || v->restTrue > 0);
+    BG_ASSUME(was || v->restTrue < v->n);
+    if (x && !was) { v->restTrue++; v->nTrue++; }
+    if (!x && was) { v->restTrue--; v->nTrue--; }
+  }
+}
+static inline void bg_queue_u__ctor(bg_queue_u *q) {
+  q->nP = q->nQ = q->nO = 0; q->bound = 0; q->cur = 0; q->curValid = 0;
+  q->pushed = q->popped = 0; q->pushedP = q->pushedQ = 0;
+}
+static inline void bg_queue_u__push(bg_queue_u *q, const VertexIndex *xp) {
+  VertexIndex x = *xp;
+  BG_ASSUME(BG_QUEUE_LEN(*q) < BG_CAP && q->pushed < BG_CAP);
+  if (BG_IS_P(x)) { q->nP++; q->pushedP++; }
+  else if (BG_IS_Q(x)) { q->nQ++; q->pushedQ++; }
+  else q->nO++;
+  if ((bg_size)x + 1 > q->bound) q->bound = (bg_size)x + 1;
+  q->pushed++;
+}
+static inline bg_bool bg_queue_u__empty(const bg_queue_u *q) { return BG_QUEUE_LEN(*q) == 0; }
+static inline void bg__queue_choose(bg_queue_u *q) {
+  if (!q->curValid) {
+    VertexIndex x = nondet_vertex();
+    BG_ASSUME((bg_size)x < q->bound);
+    BG_ASSUME(!BG_IS_P(x) || q->nP > 0);
+    BG_ASSUME(!BG_IS_Q(x) || q->nQ > 0);
+    BG_ASSUME(!BG_IS_O(x) || q->nO > 0);
+    q->cur = x; q->curValid = 1;
+  }
+}
+static inline VertexIndex *bg_queue_u__front(bg_queue_u *q) {
+  BG_PRE(BG_QUEUE_LEN(*q) > 0, "front() of an empty queue");
+  bg__queue_choose(q);
+  return &q->cur;
+}
+static inline void bg_queue_u__pop(bg_queue_u *q) {
+  BG_PRE(BG_QUEUE_LEN(*q) > 0, "pop() of an empty queue");
+  bg__queue_choose(q);
+  if (BG_IS_P(q->cur)) q->nP--;
+  else if (BG_IS_Q(q->cur)) q->nQ--;
+  else q->nO--;
+  q->curValid = 0;
+  q->popped++;
+}
+static inline void bg_preds__ctor_2(bg_preds *p, const bg_vec_sz *a, const bg_vec_u *b) { p->first = *a; p->second = *b; }
+
 /* --------------------------------------------- std::unordered_set<VertexIndex> (read-only use) */
 /* the element under the cursor: any of the classes still ahead */
 static inline void bg__uset_arrive(bg_uset_it *it) {
